@@ -854,6 +854,38 @@ theorem PipeRun.Clean.init (P : PipeDef α β T X S Res) (it : R.It) :
     PipeRun.Clean (PipeRun.init (ρ := ρ) R P it) :=
   ⟨rfl, rfl, rfl, rfl⟩
 
+/-! ### row-wise pipelines and the single-column re-batcher as instances -/
+
+/-- the pipeline of a row-wise chain `f` (each source element yields the list `f a`) -/
+def rowPipe (f : α → List β) (m : Agg.Mergeable X S Res) (batchOf : β → List X) :
+    PipeDef α β Unit X S Res := ⟨Trans.ofFn f, m, batchOf⟩
+
+/-- rows = outputs for a row-wise chain -/
+def rowViewOf (f : α → List β) : RowView α β Unit β := ⟨fun b => [b], fun _ => [], f⟩
+
+theorem rowPipe_conserves (f : α → List β) (m : Agg.Mergeable X S Res) (batchOf : β → List X) :
+    Conserves (rowPipe f m batchOf).tr (rowViewOf f) :=
+  ⟨rfl, by intro t a; simp [rowPipe, Trans.ofFn, rowViewOf], by intro t; simp [rowPipe, Trans.ofFn, rowViewOf]⟩
+
+theorem flatMap_singleton (bs : List β) : bs.flatMap (fun b => [b]) = bs := by
+  induction bs with
+  | nil => rfl
+  | cons b bs ih => simp [ih]
+
+/-- `rebatched_args` for one list column conserves rows -/
+theorem chunkEmit_conserves (target : Nat) : ∀ (fuel : Nat) (rows : List ρ),
+    (chunkEmit target fuel rows).2.flatten ++ (chunkEmit target fuel rows).1 = rows := by
+  intro fuel
+  induction fuel with
+  | zero => intro rows; simp [chunkEmit]
+  | succ fuel ih =>
+    intro rows
+    unfold chunkEmit
+    split
+    · simp
+    · simp only [List.flatten_cons, List.append_assoc]
+      rw [ih, List.take_append_drop]
+
 end pipe
 
 /-! ## Threaded pipelines -/
